@@ -387,8 +387,10 @@ func genHistory(r *rand.Rand, tier string) *caseSpec {
 		c.StartVS = uint64(r.Intn(5))
 	}
 	n := 5 + r.Intn(40)
-	if tier == "thorough" && r.Intn(4) == 0 {
-		n = 90 + r.Intn(160)
+	long := false
+	if r.Intn(5) == 0 || (tier == "thorough" && r.Intn(3) == 0) {
+		n = 90 + r.Intn(230) // more than one (or two) 100-block scan windows
+		long = true
 	}
 	if r.Intn(5) == 0 {
 		c.StartBlock = uint64(r.Intn(n / 2))
@@ -397,7 +399,11 @@ func genHistory(r *rand.Rand, tier string) *caseSpec {
 	for i := 0; i < n; i++ {
 		var blk []txSpec
 		k := 0
-		switch r.Intn(5) {
+		sel := r.Intn(5)
+		if long && r.Intn(3) != 0 {
+			sel = 4 // sparse: long histories would otherwise explode the restart enumeration
+		}
+		switch sel {
 		case 0:
 			k = 1 + r.Intn(2)
 		case 1:
@@ -506,7 +512,11 @@ type replayFile struct {
 }
 
 func shrinkCase(t *testing.T, c *caseSpec, dir, sig string) *caseSpec {
+	tStart := time.Now()
 	same := func(x *caseSpec) bool {
+		if time.Since(tStart).Seconds() > 15 {
+			return false // bounded effort: report what we have
+		}
 		v, _ := runRestart(t, x, dir)
 		return v != nil && v.sig() == sig
 	}
@@ -623,11 +633,18 @@ func TestC20(t *testing.T) {
 			acks = append(acks, n-1, n)
 		}
 		stride := 1
-		if len(can)*len(acks) > 4000 {
-			stride = len(can)*len(acks)/4000 + 1
+		limit := 4000
+		if *flagTier != "thorough" {
+			limit = 1500
+		}
+		if len(can)*len(acks) > limit {
+			stride = len(can)*len(acks)/limit + 1
 		}
 		k := 0
 		for ci := 0; ci < len(can); ci++ {
+			if time.Since(t0).Seconds() > *flagBudget*1.5 {
+				break
+			}
 			for _, ack := range acks {
 				k++
 				if stride > 1 && k%stride != int(seed%int64(stride)) {
